@@ -41,7 +41,7 @@ func (fl FocalLength) MarshalText() (text []byte, err error) {
 func (fl *FocalLength) UnmarshalText(text []byte) (err error) {
 	var f float64
 	if len(text) > 0 {
-		if text[len(text)-1] == sufFocalLength[1] && text[len(text)-2] == sufFocalLength[0] {
+		if len(text) >= 2 && text[len(text)-1] == sufFocalLength[1] && text[len(text)-2] == sufFocalLength[0] {
 			text = text[:len(text)-2]
 		}
 		f, err = strconv.ParseFloat(string(text), 32)
@@ -74,6 +74,9 @@ func parseAperture(buf []byte) Aperture {
 			if i < len(buf)+1 {
 				n := uint16(parseUint(buf[:i]))
 				d := uint16(parseUint(buf[i+1:]))
+				if d == 0 {
+					return Aperture(0)
+				}
 				return Aperture(n / d)
 			}
 		}
@@ -177,7 +180,7 @@ func (eb ExposureBias) MarshalText() (text []byte, err error) {
 // UnmarshalText implements the TextUnmarshaler interface that is
 // used by encoding/json
 func (eb *ExposureBias) UnmarshalText(text []byte) (err error) {
-	if text[0] == '0' {
+	if len(text) == 0 || text[0] == '0' {
 		return
 	}
 	for i := 0; i < len(text); i++ {
